@@ -139,6 +139,15 @@ type Runner struct {
 	// [optErrExit], but unlike [Runner.noErrExit] they still run the ERR trap.
 	inNegated bool
 
+	// errExitSetInNegated is true if "set -e" was run inside the negated
+	// command; like in bash, it then applies to the rest of that command.
+	errExitSetInNegated bool
+
+	// exitNegated is true if the current exit status was made by "!"
+	// inverting a status; such a status does not trigger [optErrExit]
+	// in the compound commands around the negated command either.
+	exitNegated bool
+
 	// The current and last exit statuses. They can only be different if
 	// the interpreter is in the middle of running a statement. In that
 	// scenario, 'exit' is the status for the current statement being run,
@@ -1034,6 +1043,8 @@ func (r *Runner) subshell(background bool) *Runner {
 		inSource:       r.inSource,
 		noErrExit:      r.noErrExit,
 		inNegated:      r.inNegated,
+
+		errExitSetInNegated: r.errExitSetInNegated,
 
 		origStdout: r.origStdout, // used for process substitutions
 	}
